@@ -23,9 +23,9 @@ Lemma list_sum_set_nth {X} (f : X -> nat) (l : list X) i x t :
   nth_error l i = Some t ->
   (list_sum (map f (set_nth l i x)) + f t = list_sum (map f l) + f x)%nat.
 Proof.
-  revert i; induction l as [|y l IH]; intros i Hi.
+  unfold list_sum. revert i; induction l as [|y l IH]; intros i Hi.
   - destruct i; discriminate.
-  - destruct i as [|i]; cbn [set_nth map list_sum nth_error] in *.
+  - destruct i as [|i]; cbn [set_nth map fold_right nth_error] in *.
     + inversion Hi; subst. lia.
     + specialize (IH i Hi). lia.
 Qed.
@@ -73,6 +73,7 @@ Section ProtocolProofs.
   Notation thread := (thread Q A).
   Notation step := (step body).
   Notation run := (run body).
+  Notation init := (@init Q A).
 
   Lemma nth_upd (s : state) i j t t' :
     nth_error (s_threads s) i = Some t ->
@@ -322,9 +323,10 @@ Section ProtocolProofs.
                    | q rest w Hpc Hown Htodo Hbd | Hpc Hown | Hpc];
       match goal with |- (measure (mkS ?c ?p ?o (upd s i ?t')) < _)%nat =>
         pose proof (measure_upd s i t t' c p o Ht) as Hm end;
-      unfold t_measure in Hm; cbn [t_pc t_todo] in Hm; rewrite Hpc in Hm;
+      unfold t_measure in Hm; cbn [t_pc t_todo] in Hm; rewrite Hpc in Hm; cbv beta iota in Hm;
+      try rewrite Htodo in Hm; try rewrite Htodo;
       try (destruct (t_todo t) as [|q0 r0]; [congruence|]);
-      try rewrite Htodo in Hm; cbn [length] in Hm; lia.
+      cbn [length] in Hm; lia.
   Qed.
 
   Theorem schedule_bounded sched (s s' : state) :
@@ -340,6 +342,275 @@ Section ProtocolProofs.
     measure (init c qss) = (4 * list_sum (map (@length Q) qss))%nat.
   Proof.
     unfold measure. cbn [init s_threads]. induction qss as [|qs r IH]; [reflexivity|].
-    cbn [map list_sum]. rewrite IH. unfold t_measure. cbn [t_pc t_todo]. lia.
+    unfold list_sum in *. cbn [map fold_right]. rewrite IH. unfold t_measure. cbn [t_pc t_todo]. lia.
   Qed.
 End ProtocolProofs.
+
+(* ------------------------------------------------------------------ protocol: conditional part *)
+(* What the theorems below assume about the critical section, as Section hypotheses (they become
+   explicit premises of the pinned statements and are PROVED for the regex-manager body further
+   down, with [inv] = the C06 cache invariant [cache_ok]):
+     body_ok                   on a cache satisfying the invariant the body does not panic and
+                               re-establishes the invariant (parsed rules: C10/C11);
+     answer_cache_independent  the *answer* does not depend on the cache contents. *)
+Section ProtocolConditional.
+  Variables Q A : Type.
+  Variable body : cache -> Q -> res (cache * A).
+  Variable inv : cache -> Prop.
+  Hypothesis body_ok :
+    forall c q, inv c -> exists c' a, body c q = Ok (c', a) /\ inv c'.
+  Hypothesis answer_cache_independent :
+    forall c1 c2 q c1' a1 c2' a2, inv c1 -> inv c2 ->
+      body c1 q = Ok (c1', a1) -> body c2 q = Ok (c2', a2) -> a1 = a2.
+
+  Notation state := (state Q A).
+  Notation thread := (thread Q A).
+  Notation step := (step body).
+  Notation run := (run body).
+  Notation init := (@init Q A).
+
+  (* ---------------------------------------------------------------- no poisoning *)
+  Definition healthy (s : state) : Prop :=
+    inv (s_cache s) /\ s_poisoned s = false /\
+    (forall i t, nth_error (s_threads s) i = Some t -> t_pc t <> Crashed).
+
+  Lemma healthy_step (s : state) i s' : healthy s -> step s i = Some s' -> healthy s'.
+  Proof.
+    intros [Hinv [Hp Hc]] Hs. apply (step_inv Q A body) in Hs. destruct Hs as [t [Ht Hk]].
+    assert (Hthr : forall c p o t', t_pc t' <> Crashed ->
+               forall j x, nth_error (s_threads (mkS c p o (upd s i t'))) j = Some x -> t_pc x <> Crashed).
+    { intros c p o t' Ht' j x Hx. cbn [s_threads] in Hx. rewrite (nth_upd Q A s i j t t' Ht) in Hx.
+      destruct (Nat.eqb i j); [inversion Hx; subst; exact Ht'|apply (Hc j x Hx)]. }
+    destruct Hk as [Hpc Htodo Hown Hpois | Hpc Htodo Hown Hpois | q rest c' a Hpc Hown Htodo Hbd
+                   | q rest w Hpc Hown Htodo Hbd | Hpc Hown | Hpc].
+    - split; [exact Hinv|split; [reflexivity|apply Hthr; cbn [t_pc]; discriminate]].
+    - congruence.
+    - destruct (body_ok (s_cache s) q Hinv) as [c1 [a1 [Hb1 Hi1]]].
+      rewrite Hbd in Hb1. inversion Hb1; subst c1 a1.
+      split; [exact Hi1|split; [exact Hp|apply Hthr; cbn [t_pc]; discriminate]].
+    - destruct (body_ok (s_cache s) q Hinv) as [c1 [a1 [Hb1 _]]]. congruence.
+    - split; [exact Hinv|split; [exact Hp|apply Hthr; cbn [t_pc]; discriminate]].
+    - split; [exact Hinv|split; [exact Hp|apply Hthr; cbn [t_pc]; discriminate]].
+  Qed.
+
+  Lemma healthy_init c qss : inv c -> healthy (init c qss).
+  Proof.
+    intro Hc. split; [exact Hc|split; [reflexivity|]].
+    intros i t Ht. apply (init_threads Q A) in Ht. destruct Ht as [qs [_ ->]]. discriminate.
+  Qed.
+
+  (* if no Body panics, the mutex is never poisoned and no thread ever dies, on every schedule *)
+  Theorem no_poison c qss sched (s : state) :
+    inv c -> run (init c qss) sched = Some s ->
+    s_poisoned s = false /\ any_crashed s = false /\ inv (s_cache s).
+  Proof.
+    intros Hc Hrun.
+    assert (H : healthy s).
+    { eapply (run_invariant Q A body healthy); [|apply healthy_init; exact Hc|exact Hrun].
+      intros s0 i s1 Hh Hs. eapply healthy_step; eassumption. }
+    destruct H as [Hinv [Hp Hcr]]. split; [exact Hp|split; [|exact Hinv]].
+    unfold any_crashed. destruct (existsb crashedb (s_threads s)) eqn:E; [|reflexivity].
+    apply existsb_exists in E. destruct E as [t [Hin Hcrash]].
+    apply In_nth_error in Hin. destruct Hin as [i Ht]. exfalso. apply (Hcr i t Ht).
+    unfold crashedb in Hcrash. destruct (t_pc t); try discriminate. reflexivity.
+  Qed.
+
+  (* so, with deadlock freedom: a schedule that cannot be extended has run every query *)
+  Lemma final_complete (s : state) : any_crashed s = false -> final s = true -> complete s = true.
+  Proof.
+    unfold any_crashed, final, complete. intros Hc Hf.
+    apply forallb_forall. intros t Hin. rewrite forallb_forall in Hf. specialize (Hf t Hin).
+    assert (Hn : crashedb t = false).
+    { destruct (crashedb t) eqn:E; [|reflexivity].
+      assert (existsb crashedb (s_threads s) = true) by (apply existsb_exists; eauto). congruence. }
+    unfold finishedb in Hf. unfold completedb. unfold crashedb in Hn.
+    destruct (t_pc t); try discriminate. destruct (t_todo t); [reflexivity|discriminate].
+  Qed.
+
+  Theorem maximal_schedule_complete c qss sched (s : state) :
+    inv c -> run (init c qss) sched = Some s ->
+    (forall i, step s i = None) -> complete s = true.
+  Proof.
+    intros Hc Hrun Hstuck.
+    destruct (no_poison c qss sched s Hc Hrun) as [_ [Hcr _]].
+    apply final_complete; [exact Hcr|].
+    destruct (final s) eqn:Hf; [reflexivity|].
+    destruct (no_deadlock Q A body c qss s (ex_intro _ sched Hrun) Hf) as [i [s' Hs]].
+    rewrite Hstuck in Hs. discriminate.
+  Qed.
+
+  (* ---------------------------------------------------------------- answers = sequential answers *)
+  Definition ans (c : cache) (q : Q) : option A :=
+    match body c q with Ok (_, a) => Some a | Panic _ => None end.
+
+  Lemma ans_indep c0 c q c' a : inv c0 -> inv c -> body c q = Ok (c', a) -> ans c0 q = Some a.
+  Proof.
+    intros H0 Hc Hb. unfold ans. destruct (body_ok c0 q H0) as [c1 [a1 [Hb1 _]]]. rewrite Hb1.
+    f_equal. eapply answer_cache_independent; [exact H0|exact Hc|exact Hb1|exact Hb].
+  Qed.
+
+  Lemma seq_run_spec c0 : inv c0 -> forall qs c, inv c ->
+    exists c' l, seq_run body c qs = Ok (c', l) /\ inv c' /\ map (@Some A) l = map (ans c0) qs.
+  Proof.
+    intros H0 qs. induction qs as [|q r IH]; intros c Hc; cbn [seq_run map].
+    - exists c, []. auto.
+    - destruct (body_ok c q Hc) as [c1 [a [Hb Hi1]]]. rewrite Hb.
+      destruct (IH c1 Hi1) as [c2 [l [Hr [Hi2 Hl]]]]. rewrite Hr.
+      exists c2, (a :: l). split; [reflexivity|split; [exact Hi2|]].
+      cbn [map]. rewrite Hl. f_equal. symmetry. exact (ans_indep c0 c q c1 a H0 Hc Hb).
+  Qed.
+
+  Definition seq_inv (c0 : cache) (qss : list (list Q)) (s : state) : Prop :=
+    inv (s_cache s) /\
+    forall i t qs, nth_error (s_threads s) i = Some t -> nth_error qss i = Some qs ->
+      map (ans c0) qs = map (@Some A) (t_done t) ++ map (ans c0) (t_todo t).
+
+  Lemma seq_inv_step c0 qss (s : state) i s' :
+    inv c0 -> seq_inv c0 qss s -> step s i = Some s' -> seq_inv c0 qss s'.
+  Proof.
+    intros H0 [Hinv Hq] Hs. apply (step_inv Q A body) in Hs. destruct Hs as [t [Ht Hk]].
+    assert (Hthr : forall c p o t',
+               map (@Some A) (t_done t') ++ map (ans c0) (t_todo t') =
+               map (@Some A) (t_done t) ++ map (ans c0) (t_todo t) ->
+               forall j x qs, nth_error (s_threads (mkS c p o (upd s i t'))) j = Some x ->
+                 nth_error qss j = Some qs ->
+                 map (ans c0) qs = map (@Some A) (t_done x) ++ map (ans c0) (t_todo x)).
+    { intros c p o t' Heq j x qs Hx Hqs. cbn [s_threads] in Hx. rewrite (nth_upd Q A s i j t t' Ht) in Hx.
+      destruct (Nat.eqb i j) eqn:E; [|apply (Hq j x qs Hx Hqs)].
+      apply Nat.eqb_eq in E; subst j. inversion Hx; subst x. rewrite Heq. apply (Hq i t qs Ht Hqs). }
+    destruct Hk as [Hpc Htodo Hown Hpois | Hpc Htodo Hown Hpois | q rest c' a Hpc Hown Htodo Hbd
+                   | q rest w Hpc Hown Htodo Hbd | Hpc Hown | Hpc];
+      try (split; [exact Hinv|apply Hthr; reflexivity]).
+    split.
+    - destruct (body_ok (s_cache s) q Hinv) as [c1 [a1 [Hb1 Hi1]]]. rewrite Hbd in Hb1.
+      inversion Hb1; subst; exact Hi1.
+    - apply Hthr. cbn [t_done t_todo]. rewrite Htodo. cbn [map].
+      rewrite map_app, <- app_assoc. cbn [map app].
+      rewrite (ans_indep c0 (s_cache s) q c' a H0 Hinv Hbd). reflexivity.
+  Qed.
+
+  Lemma seq_inv_init c0 c qss : inv c -> seq_inv c0 qss (init c qss).
+  Proof.
+    intro Hc. split; [exact Hc|]. intros i t qs Ht Hqs.
+    apply (init_threads Q A) in Ht. destruct Ht as [qs' [Hq' ->]].
+    rewrite Hqs in Hq'. inversion Hq'; subst. reflexivity.
+  Qed.
+
+  Lemma firstn_map_Some_app (l : list A) (r : list (option A)) :
+    firstn (length l) (map (@Some A) l ++ r) = map (@Some A) l.
+  Proof.
+    replace (length l) with (length (map (@Some A) l) + 0)%nat by (rewrite map_length; lia).
+    rewrite firstn_app_2. cbn [firstn]. apply app_nil_r.
+  Qed.
+
+  (* Every thread, at every point of every interleaving, holds exactly the answers that a single
+     thread running the same queries in order on its own engine (any cache satisfying the
+     invariant, e.g. the empty cache of a fresh engine) gets for the queries done so far. *)
+  Theorem interleaving_sequential_prefix c0 qss sched (s : state) :
+    inv c0 -> run (init c0 qss) sched = Some s ->
+    forall c1, inv c1 ->
+    forall i t qs, nth_error (s_threads s) i = Some t -> nth_error qss i = Some qs ->
+      exists c', seq_run body c1 (firstn (length (t_done t)) qs) = Ok (c', t_done t).
+  Proof.
+    intros H0 Hrun c1 H1 i t qs Ht Hqs.
+    assert (H : seq_inv c0 qss s).
+    { eapply (run_invariant Q A body (seq_inv c0 qss)); [|apply seq_inv_init; exact H0|exact Hrun].
+      intros s0 j s1 Hi Hs. eapply seq_inv_step; eassumption. }
+    destruct H as [_ Hq]. specialize (Hq i t qs Ht Hqs).
+    destruct (seq_run_spec c0 H0 (firstn (length (t_done t)) qs) c1 H1) as [c' [l [Hr [_ Hl]]]].
+    exists c'. rewrite Hr. do 2 f_equal. apply map_Some_inj. rewrite Hl.
+    rewrite <- firstn_map, Hq. apply firstn_map_Some_app.
+  Qed.
+
+  Lemma complete_thread (s : state) i t :
+    complete s = true -> nth_error (s_threads s) i = Some t -> t_pc t = AtAcquire /\ t_todo t = [].
+  Proof.
+    unfold complete. intros Hc Ht. rewrite forallb_forall in Hc.
+    specialize (Hc t (nth_error_In _ _ Ht)). unfold completedb in Hc.
+    destruct (t_pc t); try discriminate. destruct (t_todo t); [auto|discriminate].
+  Qed.
+
+  Theorem interleaving_sequential c0 qss sched (s : state) :
+    inv c0 -> run (init c0 qss) sched = Some s -> complete s = true ->
+    forall c1, inv c1 ->
+    forall i qs, nth_error qss i = Some qs ->
+      exists t c', nth_error (s_threads s) i = Some t /\ seq_run body c1 qs = Ok (c', t_done t).
+  Proof.
+    intros H0 Hrun Hcomp c1 H1 i qs Hqs.
+    assert (H : seq_inv c0 qss s).
+    { eapply (run_invariant Q A body (seq_inv c0 qss)); [|apply seq_inv_init; exact H0|exact Hrun].
+      intros s0 j s1 Hi Hs. eapply seq_inv_step; eassumption. }
+    assert (Hlen : length (s_threads s) = length qss).
+    { refine (run_invariant Q A body (fun s => length (s_threads s) = length qss) _ sched (init c0 qss) s _ Hrun).
+      - intros s0 j s1 Hl Hs. apply (step_inv Q A body) in Hs. destruct Hs as [t [_ Hk]].
+        destruct Hk; cbn [s_threads]; unfold upd; rewrite length_set_nth; exact Hl.
+      - cbn [C19_Model.init s_threads]. apply map_length. }
+    destruct (nth_error (s_threads s) i) as [t|] eqn:Ht.
+    2:{ apply nth_error_None in Ht. assert (i < length qss)%nat by (apply nth_error_Some; congruence). lia. }
+    destruct (complete_thread s i t Hcomp Ht) as [_ Htodo].
+    destruct H as [_ Hq]. specialize (Hq i t qs Ht Hqs). rewrite Htodo in Hq. cbn [map] in Hq.
+    rewrite app_nil_r in Hq.
+    destruct (seq_run_spec c0 H0 qs c1 H1) as [c' [l [Hr [_ Hl]]]].
+    exists t, c'. split; [reflexivity|]. rewrite Hr. do 2 f_equal. apply map_Some_inj. congruence.
+  Qed.
+
+  (* ---------------------------------------------------------------- serial order *)
+  (* the queries whose Body ran, in the order of the schedule (= lock acquisition order) *)
+  Fixpoint body_trace (s : state) (sched : list nat) : list Q :=
+    match sched with
+    | [] => []
+    | i :: r =>
+        match step s i with
+        | None => []
+        | Some s' =>
+            (match nth_error (s_threads s) i with
+             | Some t => match t_pc t, t_todo t with AtBody, q :: _ => [q] | _, _ => [] end
+             | None => []
+             end) ++ body_trace s' r
+        end
+    end.
+
+  Lemma seq_run_app c qs1 qs2 c1 l1 :
+    seq_run body c qs1 = Ok (c1, l1) ->
+    seq_run body c (qs1 ++ qs2) =
+    match seq_run body c1 qs2 with Ok (c2, l2) => Ok (c2, l1 ++ l2) | Panic w => Panic w end.
+  Proof.
+    revert c l1; induction qs1 as [|q r IH]; intros c l1 H; cbn [seq_run app] in *.
+    - inversion H; subst. destruct (seq_run body c1 qs2) as [[c2 l2]|w]; reflexivity.
+    - destruct (body c q) as [[c' a]|w]; [|discriminate].
+      destruct (seq_run body c' r) as [[c'' l]|w] eqn:Hr; [|discriminate].
+      inversion H; subst. rewrite (IH c' l Hr).
+      destruct (seq_run body c1 qs2) as [[c2 l2]|w]; reflexivity.
+  Qed.
+
+  (* The shared cache after ANY interleaving is the cache a single thread produces by running
+     the critical sections one after the other in lock-acquisition order: critical sections are
+     atomic with respect to the cache. *)
+  Theorem serial_order sched : forall (s s' : state),
+    inv (s_cache s) -> s_poisoned s = false ->
+    run s sched = Some s' ->
+    exists l, seq_run body (s_cache s) (body_trace s sched) = Ok (s_cache s', l).
+  Proof.
+    induction sched as [|i r IH]; intros s s' Hinv Hp Hrun; cbn [C19_Model.run body_trace] in *.
+    - inversion Hrun; subst. exists []. reflexivity.
+    - destruct (step s i) as [s1|] eqn:Hs; [|discriminate].
+      pose proof Hs as Hs0. apply (step_inv Q A body) in Hs. destruct Hs as [t [Ht Hk]]. rewrite Ht.
+      destruct Hk as [Hpc Htodo Hown Hpois | Hpc Htodo Hown Hpois | q rest c' a Hpc Hown Htodo Hbd
+                     | q rest w Hpc Hown Htodo Hbd | Hpc Hown | Hpc]; rewrite Hpc.
+      + match type of Hrun with @C19_Model.run _ _ _ ?s1 _ = _ =>
+          destruct (IH s1 s' Hinv eq_refl Hrun) as [l Hl] end. exists l. exact Hl.
+      + congruence.
+      + rewrite Htodo.
+        destruct (body_ok (s_cache s) q Hinv) as [c1 [a1 [Hb1 Hi1]]].
+        rewrite Hbd in Hb1. inversion Hb1; subst c1 a1.
+        match type of Hrun with @C19_Model.run _ _ _ ?s1 _ = _ =>
+          destruct (IH s1 s' Hi1 Hp Hrun) as [l Hl] end. cbn [s_cache] in Hl.
+        exists ([a] ++ l). erewrite seq_run_app; [|cbn [seq_run]; rewrite Hbd; reflexivity].
+        rewrite Hl. reflexivity.
+      + destruct (body_ok (s_cache s) q Hinv) as [c1 [a1 [Hb1 _]]]. congruence.
+      + match type of Hrun with @C19_Model.run _ _ _ ?s1 _ = _ =>
+          destruct (IH s1 s' Hinv Hp Hrun) as [l Hl] end. exists l. exact Hl.
+      + match type of Hrun with @C19_Model.run _ _ _ ?s1 _ = _ =>
+          destruct (IH s1 s' Hinv Hp Hrun) as [l Hl] end. exists l. exact Hl.
+  Qed.
+End ProtocolConditional.
